@@ -251,6 +251,10 @@ addresses:
 		log.Debug("staring applying blocks", "num-uncommitted", len(uncommitted))
 		manager := db.NewMemDBManager(ap.stable.GetStableAccountDB(address))
 		for _, block := range uncommitted {
+			// descendant blocks are re-applied together with the contract receive block that carries them
+			if block.BlockType == nom.BlockTypeContractSend {
+				continue
+			}
 			patch := oldManager.GetPatch(block.Identifier())
 			err := manager.Add(&nom.AccountBlockTransaction{
 				Block:   block,
